@@ -299,6 +299,17 @@ def _as_complex_records(v):
     return v
 
 
+def steps_for_nd(case, pick):
+    """as steps_for, but every RegularArray over a NumpyArray that it covers exactly becomes ONE multidimensional NumpyArray
+    (two nested ones a three-dimensional array) three times out of four instead of one time in two"""
+    def pick_nd(options):
+        v = pick(options)
+        if options == [0, 1] and pick([0, 1]) == 1:
+            return 1
+        return v
+    return steps_for(case, pick_nd)
+
+
 def steps_for(case, pick):
     act = case["act"]
     a = case.get("args", {})
